@@ -149,6 +149,10 @@ def load_case(case):
         return gen3d.build_steered_stack(case)
     if kind == "crowd":
         return gen3d.build_crowd(case)
+    if kind == "pulled-apart":
+        return gen3d.build_pulled_apart(case)
+    if kind == "columns":
+        return gen3d.build_columns(case)
     if kind == "steered-hbond":
         info = {}
         s3 = gen3d.build_steered_hbond(case, info)
@@ -189,6 +193,18 @@ def load_case(case):
 
 
 def oracle(case):
+    if case.get("kind") == "multimodel":
+        # several models in one structure object, each annotated by its number (1..k, from 0, or a trajectory's 300+)
+        from rnaverif.props import c11
+
+        s3 = c11.load_case(case)
+        out, last = [], None
+        for m in c11.model_numbers(case):
+            ds, info = evaluate(s3, int(str(m)))  # an equal number, not the very object the residues carry
+            out += [D(d.sig, f"model {m}: {d.what}") for d in ds]
+            last = info if last is None or info["pairs"] > last["pairs"] else last
+        case["_info"] = last
+        return out
     s3 = load_case(case)
     ds, info = evaluate(s3)
     case["_info"] = info
@@ -256,7 +272,9 @@ def plan(tier, seed):
     # crowded placements (superimposed, slightly perturbed copies of a run of residues as chains of one model): an atom
     # then has far more donors / acceptors within 4 A than any spaced structure offers
     n, ex = (4, 30) if tier == "quick" else (8, 800)
-    return base_plan(tier, seed) + [{"kind": "crowd", "files": corpus.SMALL[:6], "examples": ex, "seed": seed * 1000 + 500 + k} for k in range(n)]
+    m, mex = (4, 12) if tier == "quick" else (8, 250)
+    return base_plan(tier, seed) + [{"kind": "crowd", "files": corpus.SMALL[:6], "examples": ex, "seed": seed * 1000 + 500 + k} for k in range(n)] + \
+        [{"kind": "multimodel", "files": corpus.SMALL[:8], "examples": mex, "seed": seed * 1000 + 600 + k} for k in range(m)]
 
 
 def run_shard(spec) -> ShardResult:
@@ -279,6 +297,11 @@ def run_shard(spec) -> ShardResult:
     elif spec["kind"] == "steered-hbond":
         run_hypothesis(PROP_ID, gen3d.st_steered_hbond(files), oracle, seed=spec["seed"], max_examples=spec["examples"],
                        result=res, to_json=to_json, classify=classify_steered)
+    elif spec["kind"] == "multimodel":
+        from rnaverif.props import c11
+
+        run_hypothesis(PROP_ID, c11.st_multimodel(files), oracle, seed=spec["seed"], max_examples=spec["examples"],
+                       result=res, to_json=to_json, classify=lambda c: (classify(c)[0], list(classify(c)[1]) + ["several-models-in-one-object"]))
     elif spec["kind"] == "crowd":
         run_hypothesis(PROP_ID, gen3d.st_crowd(files), oracle, seed=spec["seed"], max_examples=spec["examples"],
                        result=res, to_json=to_json, classify=lambda c: (classify(c)[0], list(classify(c)[1]) + ["crowded-copies"]))
